@@ -17,7 +17,7 @@ PROPS = {
         "level_note": 'Sampling of a 2^128 space plus boundaries; trusts math/big as positional reference with digit values derived from single-character parses.',
         "shards": 8,
         "rule": "cases: boundary identifiers (all-zero, all-one, each single bit and its complement, every leading-zero-byte count, 62^k±2, digit boundaries, 2^128-1..-4), PRNG-uniform identifiers, systematic and random strings offered to Parse, NewHash argument lists; every case is non-trivial; distinct by hash of the identifier bytes / the string.",
-        "floors": ["id:all-zero", "id:all-one", "id:single-bit", "id:leading-zero-bytes", "id:power-of-62", "id:max",
+        "floors": ["id:compiled-positions", "id:all-zero", "id:all-one", "id:single-bit", "id:leading-zero-bytes", "id:power-of-62", "id:max",
                    "id:uniform", "str:systematic", "str:random", "str:too-large", "str:fits", "hash:pure"],
         "assumptions": COMMON_ASSUMPTIONS + [
             "the digit value of each alphanumeric character is taken from the implementation (Parse of a 1-character string) and required to be a bijection onto 0..61; positional evaluation with math/big is the reference",
